@@ -956,6 +956,10 @@ func c7Ctor(c *Ctx, fi *FuncInfo, sliceF *types.Var) {
 }
 
 func isSortedCtorName(c *Ctx, name string) bool {
+	// only constructors the rules were written against: a new helper is judged where it is inlined, not trusted by name
+	if !c.An.Baseline[name] {
+		return false
+	}
 	for _, fi := range c.P.FuncsOfPkg("slices") {
 		if fi.Name != name {
 			continue
